@@ -8,17 +8,31 @@ A_COMMON = [
 
 PROPS = {
     "C17": dict(
-        slices=["time", "network"],
+        slices=["time", "network", "net_enum"],
         witness_family="net",
         level_text="Verus proves, for all networks satisfying Network::wf and all node pairs, that the real Network::can_reach / minimal_duration_between_nodes equal the timing rule written from the property statement; claims nothing about JSON loading",
         level_note="trusted: vstd specs, key-model axioms for derived Hash, structural derived Eq/Ord; instance validity (Network::wf) is a precondition",
-        scope="can_reach / minimal_duration_between_nodes equal the documented timing rule for all networks and node pairs",
+        scope="can_reach / minimal_duration_between_nodes equal the documented timing rule for all networks and node pairs; successors/predecessors: the scanned key range contains every reachable node and the filter keeps exactly the reachable ones (ties included)",
         assumptions=A_COMMON + [
             "JSON loading (model/src/json_serialisation/mod.rs: serde, string look-ups) is not under contract",
+            "A-lib: BTreeMap::range(b) yields exactly the entries whose key lies in b (derived lexicographic tuple order); filter_map(f) keeps exactly the Some images; the plumbing around the lifted fragments is pinned by a skeleton hash",
+            "A-index: Network::new (not under contract) keys the per-type sorted maps by (start_time(n), n) resp. (end_time(n), n) for exactly the type's nodes",
         ],
     ),
 }
 
+
+PROPS["C12"] = dict(
+    slices=["tour_pos"],
+    witness_family="tour",
+    level_text="Verus proves, for all well-formed tours over all valid networks and all segments/nodes, that the real position logic (binary searches, latest_not_reaching_node, latest_not_reached_by_node, get_insert_positions), check_if_sequence_is_removable, conflict and sub_path satisfy the reference semantics written from the property statement (longest prefix / longest suffix, exactly the dropped block, refusal conditions, sub_path always succeeds)",
+    level_note="trusted: vstd specs, key-model axioms, structural derived Eq/Ord, to_vec; Tour::position_of and Path::new_trusted are stubs in this slice; Tour::wf and Network::wf are preconditions",
+    scope="position logic, removability, conflict, sub_path of solution/src/tour.rs",
+    assumptions=A_COMMON + [
+        "A-stub: Tour::position_of (binary_search_by on cmp_start_time) returns the index of the node iff it is in the tour",
+        "A-stub: Path::new_trusted returns None iff all nodes are depots, else a path with exactly the given nodes",
+    ],
+)
 
 NOT_APPLICABLE = {
     "C01": "pending: tour slices not built yet in this revision",
